@@ -116,7 +116,7 @@ theorem dataFragRead_size (le : Bool) (fl len : Nat) (data : List Nat) (s : Sub)
 /-- "small" parsers: nothing held on the heap, not DATA-like, not INFO_REPLY -/
 def Sub.plain (s : Sub) : Prop := s.isDataLike = false ∧ s.isReply = false ∧ s.size = 0
 
-theorem gapRead_plain (le : Bool) (d : List Nat) (s : Sub) (h : gapRead le d = ok s) : s.plain := by
+theorem gapRead_plain (chk le : Bool) (d : List Nat) (s : Sub) (h : gapRead chk le d = ok s) : s.plain := by
   unfold gapRead at h
   repeat' split at h
   all_goals (try (simp at h; done))
@@ -126,7 +126,7 @@ theorem heartbeatRead_plain (le : Bool) (fl : Nat) (d : List Nat) (s : Sub) (h :
   repeat' split at h
   all_goals (try (simp at h; done))
   all_goals (simp at h; subst h; simp [Sub.plain, Sub.isDataLike, Sub.isReply, Sub.size])
-theorem ackNackRead_plain (le : Bool) (fl : Nat) (d : List Nat) (s : Sub) (h : ackNackRead le fl d = ok s) : s.plain := by
+theorem ackNackRead_plain (chk le : Bool) (fl : Nat) (d : List Nat) (s : Sub) (h : ackNackRead chk le fl d = ok s) : s.plain := by
   unfold ackNackRead at h
   repeat' split at h
   all_goals (try (simp at h; done))
@@ -260,12 +260,12 @@ theorem infoReplyRead_size (le : Bool) (fl : Nat) (d : List Nat) (s : Sub) (h : 
 
 
 /-! ### dispatch elimination and the loop -/
-theorem decodeSub_cases (g : Bool) (id fl len : Nat) (le : Bool) (v : List Nat) (P : Outcome Sub → Prop)
-    (h06 : P (ackNackRead le fl v)) (h15 : P (dataRead le fl len v)) (h16 : P (dataFragRead le fl len v))
-    (h08 : P (gapRead le v)) (h07 : P (heartbeatRead le fl v)) (h13 : P (heartbeatFragRead le v))
+theorem decodeSub_cases (c : Cfg) (id fl len : Nat) (le : Bool) (v : List Nat) (P : Outcome Sub → Prop)
+    (h06 : P (ackNackRead c.snchk le fl v)) (h15 : P (dataRead le fl len v)) (h16 : P (dataFragRead le fl len v))
+    (h08 : P (gapRead c.snchk le v)) (h07 : P (heartbeatRead le fl v)) (h13 : P (heartbeatFragRead le v))
     (h0e : P (infoDstRead v)) (h0f : P (infoReplyRead le fl v)) (h0c : P (infoSrcRead le v))
-    (h09 : P (infoTsRead le fl v)) (h12 : P (nackFragRead g le v)) (hpad : P (ok .pad))
-    (hunk : P (err .unknownMessage)) : P (decodeSub g id fl len le v) := by
+    (h09 : P (infoTsRead le fl v)) (h12 : P (nackFragRead c.d5 le v)) (hpad : P (ok .pad))
+    (hunk : P (err .unknownMessage)) : P (decodeSub c id fl len le v) := by
   unfold decodeSub
   by_cases c0 : id = 0x06
   · rw [if_pos c0]; exact h06
@@ -314,10 +314,10 @@ theorem subBound_plain (len : Nat) (v : List Nat) (o : Outcome Sub) (h : ∀ s, 
   obtain ⟨h1, h2, h3⟩ := h s hs
   simp [h1, h3]
 
-theorem decodeSub_size (g : Bool) (id fl len : Nat) (le : Bool) (v : List Nat) (hl : len ≤ v.length) :
-    SubBound len v (decodeSub g id fl len le v) := by
+theorem decodeSub_size (c : Cfg) (id fl len : Nat) (le : Bool) (v : List Nat) (hl : len ≤ v.length) :
+    SubBound len v (decodeSub c id fl len le v) := by
   apply decodeSub_cases
-  · exact subBound_plain _ _ _ (ackNackRead_plain le fl v)
+  · exact subBound_plain _ _ _ (ackNackRead_plain c.snchk le fl v)
   · intro s hs
     obtain ⟨h1, h2, h3⟩ := dataRead_size le fl len v s hs
     simp only [h1, and_true]
@@ -330,7 +330,7 @@ theorem decodeSub_size (g : Bool) (id fl len : Nat) (le : Bool) (v : List Nat) (
     constructor
     · intro _; exact h3
     · split at h3 <;> omega
-  · exact subBound_plain _ _ _ (gapRead_plain le v)
+  · exact subBound_plain _ _ _ (gapRead_plain c.snchk le v)
   · exact subBound_plain _ _ _ (heartbeatRead_plain le fl v)
   · exact subBound_plain _ _ _ (heartbeatFragRead_plain le v)
   · exact subBound_plain _ _ _ (infoDstRead_plain v)
@@ -345,7 +345,7 @@ theorem decodeSub_size (g : Bool) (id fl len : Nat) (le : Bool) (v : List Nat) (
     · exact h2
   · exact subBound_plain _ _ _ (infoSrcRead_plain le v)
   · exact subBound_plain _ _ _ (infoTsRead_plain le fl v)
-  · exact subBound_plain _ _ _ (nackFragRead_plain g le v)
+  · exact subBound_plain _ _ _ (nackFragRead_plain c.d5 le v)
   · intro s hs
     simp at hs
     subst hs
@@ -353,9 +353,14 @@ theorem decodeSub_size (g : Bool) (id fl len : Nat) (le : Bool) (v : List Nat) (
   · intro s hs
     simp at hs
 
-theorem decodeLoop_bounds (g : Bool) (fuel : Nat) (v : List Nat) (ss : List Sub) (h : decodeLoop g fuel v = ok ss) :
+/-- bounds on what the loop returns, for every tree:
+    * at most `fuel` submessages and at most one per 4 octets,
+    * every single submessage holds at most `v.length` octets,
+    * with fixes/D-wire-3.patch (`c.ext`) the whole value holds at most `v.length` octets,
+    * without it the same is true only if no INFO_REPLY was decoded. -/
+theorem decodeLoop_bounds (c : Cfg) (fuel : Nat) (v : List Nat) (ss : List Sub) (h : decodeLoop c fuel v = ok ss) :
     ss.length ≤ fuel ∧ 4 * ss.length ≤ v.length ∧ (∀ s ∈ ss, s.size ≤ v.length) ∧
-      ((∀ s ∈ ss, s.isReply = false) → subsSize ss ≤ v.length) := by
+      ((c.ext = true ∨ ∀ s ∈ ss, s.isReply = false) → subsSize ss + 4 * ss.length ≤ v.length) := by
   induction fuel generalizing v ss with
   | zero =>
     simp [decodeLoop] at h
@@ -373,38 +378,87 @@ theorem decodeLoop_bounds (g : Bool) (fuel : Nat) (v : List Nat) (ss : List Sub)
       · rename_i hlen
         have hl : u16of (decide (fl % 2 = 1)) l0 l1 ≤ rest.length := by omega
         split at h
-        · rename_i s hs
-          obtain ⟨hA, hB⟩ := decodeSub_size g _ _ _ _ _ hl s hs
+        · -- fixes/D-wire-3.patch: the parser sees its own extent only
+          rename_i hext
+          have hE : extentOf id (u16of (decide (fl % 2 = 1)) l0 l1) rest.length ≤ rest.length := by
+            unfold extentOf; split <;> omega
+          have hlE : u16of (decide (fl % 2 = 1)) l0 l1 ≤ extentOf id (u16of (decide (fl % 2 = 1)) l0 l1) rest.length := by
+            unfold extentOf; split <;> omega
+          generalize extentOf id (u16of (decide (fl % 2 = 1)) l0 l1) rest.length = E at h hE hlE
+          have htl : (rest.take E).length = E := by simp; omega
           split at h
-          · rename_i ss' hrec
-            simp at h
-            subst h
-            obtain ⟨i1, i2, i3, i4⟩ := ih _ _ hrec
+          · rename_i s hs
+            have hB : s.size ≤ (rest.take E).length := (decodeSub_size c _ _ _ _ _ (by omega) s hs).2
+            have hBE : s.size ≤ E := by omega
+            split at h
+            · rename_i ss' hrec
+              simp at h
+              subst h
+              obtain ⟨i1, i2, i3, i4⟩ := ih _ _ hrec
+              rw [List.length_drop] at i2 i3 i4
+              refine ⟨by simp; omega, by simp; omega, ?_, ?_⟩
+              · intro x hx
+                simp at hx
+                rcases hx with hx | hx
+                · subst hx; simp; omega
+                · have := i3 x hx
+                  simp; omega
+              · intro _
+                have := i4 (Or.inl hext)
+                simp only [subsSize, List.length_cons]
+                omega
+            · simp at h
+            · simp at h
+          · obtain ⟨i1, i2, i3, i4⟩ := ih _ _ h
             rw [List.length_drop] at i2 i3 i4
-            refine ⟨by simp; omega, by simp; omega, ?_, ?_⟩
+            refine ⟨by omega, by simp; omega, ?_, ?_⟩
             · intro x hx
-              simp at hx
-              rcases hx with hx | hx
-              · subst hx; simp; omega
-              · have := i3 x hx
-                simp; omega
+              have := i3 x hx
+              simp; omega
+            · intro _
+              have := i4 (Or.inl hext)
+              simp; omega
+          · simp at h
+        · -- before the patch
+          rename_i hext
+          have hext' : c.ext = false := by cases hc : c.ext <;> simp_all
+          split at h
+          · rename_i s hs
+            obtain ⟨hA, hB⟩ := decodeSub_size c _ _ _ _ _ hl s hs
+            split at h
+            · rename_i ss' hrec
+              simp at h
+              subst h
+              obtain ⟨i1, i2, i3, i4⟩ := ih _ _ hrec
+              rw [List.length_drop] at i2 i3 i4
+              refine ⟨by simp; omega, by simp; omega, ?_, ?_⟩
+              · intro x hx
+                simp at hx
+                rcases hx with hx | hx
+                · subst hx; simp; omega
+                · have := i3 x hx
+                  simp; omega
+              · intro hall
+                have hall' : ∀ x ∈ s :: ss', x.isReply = false := by
+                  rcases hall with h1 | h1
+                  · rw [hext'] at h1; simp at h1
+                  · exact h1
+                have hs1 := hA (hall' s (by simp))
+                have hs2 := i4 (Or.inr (fun x hx => hall' x (by simp [hx])))
+                simp only [subsSize, List.length_cons]
+                split at hs1 <;> split at hs2 <;> simp_all <;> omega
+            · simp at h
+            · simp at h
+          · obtain ⟨i1, i2, i3, i4⟩ := ih _ _ h
+            rw [List.length_drop] at i2 i3 i4
+            refine ⟨by omega, by simp; omega, ?_, ?_⟩
+            · intro x hx
+              have := i3 x hx
+              simp; omega
             · intro hall
-              have hs1 := hA (hall s (by simp))
-              have hs2 := i4 (fun x hx => hall x (by simp [hx]))
-              simp only [subsSize, List.length_cons]
-              split at hs1 <;> split at hs2 <;> simp_all <;> omega
+              have := i4 hall
+              simp; omega
           · simp at h
-          · simp at h
-        · obtain ⟨i1, i2, i3, i4⟩ := ih _ _ h
-          rw [List.length_drop] at i2 i3 i4
-          refine ⟨by omega, by simp; omega, ?_, ?_⟩
-          · intro x hx
-            have := i3 x hx
-            simp; omega
-          · intro hall
-            have := i4 hall
-            simp; omega
-        · simp at h
     · simp at h
       subst h
       simp [subsSize]
